@@ -194,6 +194,24 @@ def handle (j : Json) : Json :=
            if mine == theirs then Json.mkObj [("agree", Json.bool true)]
            else Json.mkObj [("agree", Json.bool false), ("model_sql", Json.str mine), ("impl_sql", Json.str theirs)])
     | .error e => Json.mkObj [("bad", Json.str e)]
+  | .ok "tstep" =>
+    -- term-level builder call (see `bstep`)
+    let rtext (d : Doc) : String := match firstErr d with
+      | some e => "!exc:" ++ strOf e
+      | none => strOf (flatten d)
+    match (do pure ((← dCtx (fld j "ctx")), (← dTerm (fld j "st")), (← dTCall (fld j "call")), (← jOpt dTerm (fld j "post"))) : D (Ctx × Pypika.Term × B.TCall × Option Pypika.Term)) with
+    | .ok (c, t, call, post) =>
+      (match B.stepT t call with
+       | .error e => Json.mkObj [("exc", Json.str (strOf e))]
+       | .ok t' =>
+         let mine := rtext (render c t')
+         match post with
+         | none => Json.mkObj [("sql", Json.str mine)]
+         | some pt =>
+           let theirs := rtext (render c pt)
+           if mine == theirs then Json.mkObj [("agree", Json.bool true)]
+           else Json.mkObj [("agree", Json.bool false), ("model_sql", Json.str mine), ("impl_sql", Json.str theirs)])
+    | .error e => Json.mkObj [("bad", Json.str e)]
   | .ok "tbleq" =>
     match (do pure ((← dTbl (fld j "a")), (← dTbl (fld j "b"))) : D (Tbl × Tbl)) with
     | .ok (a, b) => Json.mkObj [("eq", Json.bool (a.beq b)), ("hash_eq", Json.bool (a.hashKey == b.hashKey)),
